@@ -5,6 +5,7 @@ mod glue;
 mod exprs;
 mod c01;
 mod c02;
+mod c07;
 mod c09;
 mod c14;
 mod c20;
@@ -31,6 +32,7 @@ fn suite(name: &str, thorough: bool) -> Vec<Template> {
         "c03" => c02::templates_point(thorough),
         "c08" => c02::templates_bounds(thorough),
         "c16" => c02::templates_bounded(thorough),
+        "c07" => c07::templates(thorough),
         "c09" => c09::templates(thorough),
         "c14" => c14::templates(thorough),
         "c20" => c20::templates(thorough),
